@@ -23,7 +23,10 @@ def cache_key(p, tier):
     sa = os.path.join(V, "sa")
     eng = [os.path.join(sa, f) for f in os.listdir(sa) if f.endswith(".py")]
     eng += [os.path.join(V, "spec", f) for f in os.listdir(os.path.join(V, "spec"))] + [os.path.join(V, "known_findings.json"), os.path.join(V, "vcheck")]
-    rules = [os.path.join(sa, "rules", "%s.py" % q) for q in [p.lower()] + DEPS.get(p, [])]
+    import prereq
+    lenders = sorted({l.lower() for l, _r, _p in prereq.PREREQUISITES.get(p, [])})
+    lend2 = sorted({q2 for q in lenders for q2 in DEPS.get(q.upper(), [])})
+    rules = [os.path.join(sa, "rules", "%s.py" % q) for q in dict.fromkeys([p.lower()] + DEPS.get(p, []) + lenders + lend2)]
     head = subprocess.run(["git", "-C", "/repo", "rev-parse", "HEAD"], stdout=subprocess.PIPE, text=True).stdout.strip()
     dirty = subprocess.run(["git", "-C", "/repo", "status", "--porcelain", "-uno"], stdout=subprocess.PIPE, text=True).stdout.strip()
     if dirty:
